@@ -317,6 +317,32 @@ def check_C07(chk, tier, seed):
                 chunks = [data] if not chunked else random_chunking(r, data[:64]) + ([data[64:]] if len(data) > 64 else [])
                 cases.append(f"SD g 1 {rs(chunks)}")
                 meta.append((L, kind, len(cont)))
+    # legal lengths whose body arrives slowly: in two pieces with a pause of 1 ms ... 30 s (virtual time) after the prefix and again in
+    # the middle, one octet per read, two octets per read (hundreds of reads for one frame) - how a body arrives is no reason to fail
+    for L in (24, 92, 260, 1000, 4100):
+        r = rng.fork(f"slow{L}")
+        prefix = bytes([1]) + gen.be(L, 3)
+        cont = r.bytes(L - 4)
+        half = len(cont) // 2
+        for pause in (1, 0x64, 0x190, 0x3e7, 0x3e8, 0x7530):
+            cases.append(f"SD g 1 {rs([prefix, 't:%x' % pause, cont[:half], 't:%x' % pause, cont[half:]])}")
+            meta.append((L, "exact", len(cont)))
+            cases.append(f"SD g 1 {rs([prefix, cont[:5], 't:%x' % pause, cont[5:half], cont[half:half + 3], 't:%x' % pause, cont[half + 3:]])}")
+            meta.append((L, "exact", len(cont)))
+            cases.append(f"SD g 1 {rs([prefix + cont[:1], 't:%x' % pause, cont[1:]])}")
+            meta.append((L, "exact", len(cont)))
+        if L in (92, 1000):
+            # ... and pauses in wall-clock time (150 ms, 300 ms), for whatever measures with the system clock
+            for pause in (0x96, 0x12c):
+                cases.append(f"SD g 1 {rs([prefix, cont[:half], 'r:%x' % pause, cont[half:]])}")
+                meta.append((L, "exact", len(cont)))
+                cases.append(f"SD g 1 {rs([prefix, cont[:7], 'r:%x' % pause, cont[7:half], cont[half:half + 9], cont[half + 9:]])}")
+                meta.append((L, "exact", len(cont)))
+        if L <= 1000:
+            data = prefix + cont
+            for step in (1, 2, 3):
+                cases.append(f"SD g 1 {rs([data[i:i + step] for i in range(0, len(data), step)])}")
+                meta.append((L, "exact", len(cont)))
     # a read that is interrupted (ErrorKind::Interrupted) inside the length prefix or inside the body: whatever the reader does
     # about it - give up with the error, or try again - the bound on the octets taken stands, and a refused length stays refused
     for L in (0, 3, 19, 20, 24, 92, (1 << 20) + 1, (1 << 24) - 1, 4096):
@@ -493,7 +519,8 @@ def server_scenarios(rng, eng, msgs, n, tier):
             if k % 2:
                 # the AVPs a relay / proxy would look at (Session-Id, Proxy-Info with Proxy-Host and Proxy-State, Route-Record,
                 # Destination-Host): to the connection loop they are payload - the answer written is the handler's, nothing added
-                ops.append(("ADDAVP", 263, None, 0x40, ("L", ("utf", b"ses;%d" % k))))
+                # (a Session-Id of 70-odd octets with multi-octet characters around octet 64: whoever abbreviates values for a log line cuts there)
+                ops.append(("ADDAVP", 263, None, 0x40, ("L", ("utf", b"s" * (57 + k % 10) + "\u00e9\u20ac\U00010348\u00e9\u20ac".encode() + b";%d" % k))))
                 ops.append(("ADDAVP", 284, None, 0x40, ("GN", [("E", 280, None, 0x40, ("L", ("id", b"proxy.example.com"))), ("E", 33, None, 0x40, ("L", ("oct", b"state%d" % k)))])))
                 ops.append(("ADDAVP", 282, None, 0x40, ("L", ("id", b"relay.example.com"))))
                 ops.append(("ADDAVP", 293, None, 0x40, ("L", ("id", b"dest.example.com"))))
